@@ -365,6 +365,16 @@ func (c *Cluster) onFastForwardDone(a *SimNode, err error) {
 		// a fast-forward that fails must leave the node as it was; one that wiped
 		// the store and then gave up leaves a node with neither its old chain nor
 		// an anchor (honest responders only: hostile responses are C12's subject)
+		if !c.hostileSeen && c.cfg.Byz == 0 {
+			// every responder is honest: what they sent hashes and verifies; a
+			// response refused for its frame hash, its peer-set hash or its
+			// signatures did not reach the node as it was sent
+			for _, verdict := range []string{"Invalid Frame Hash", "Wrong PeerSet", "Not enough valid signatures"} {
+				if strings.Contains(err.Error(), verdict) {
+					c.violate("C15", "transport-identity", "honest-fast-forward-response-refused", "node %d refused a fast-forward response although every responder is honest and nothing tampers with the traffic: %v", a.idx, err)
+				}
+			}
+		}
 		if a.running() && !c.hostileSeen && c.cfg.Byz == 0 && a.blocksBeforeFF >= 0 {
 			func() {
 				defer func() { recover() }()
